@@ -157,6 +157,8 @@ def gen_config(rng, allbits=False):
                 c['field_processor_config'] = DE43_REGEX
             elif t < 0.5:
                 c['field_python_type'] = 'int'
+        if 'field_python_type' not in c and rng.random() < 0.3:
+            c['field_python_type'] = 'string'          # the documented explicit spelling of the default type
         cfg[str(b)] = c
     return cfg
 
